@@ -113,7 +113,7 @@ def gen(rng, tier, index):
     plan = {"scene": scene, "mode": mode, "dt": dt}
     if mode == "reverse":
         plan["N"] = int(rng.integers(30, 160))
-        if rng.random() < 0.25:
+        if rng.random() < 0.35:
             # step sizes are the user's choice over many decades: very fine steps (slow change per step)
             plan["dt"] = float(10 ** rng.uniform(-5.0, -3.5))
             plan["N"] = int(rng.integers(20, 80))
@@ -256,7 +256,11 @@ def execute(plan, out, log):
                 sol_a = run_leg(B, spec_for(plan, dt, k), sim)
                 st = body_states(B, 0.0, sol_a.q[-1], sol_a.u[-1])
                 st["angle0"] = tracked_angles(B, sol_a, len(sol_a.t) - 1)
-                Bm = build(scene, state=st)
+                try:
+                    Bm = build(scene, state=st)
+                except AssertionError as e:
+                    out["violations"].append(violation("state_rejected", "restart", f"the state RATTLE reached after {k} steps (dt={dt:.2e}) on a conservative scleronomic system is rejected by assembly: {e}"))
+                    return
                 sol_b = run_leg(Bm, spec_for(plan, dt, N - k), sim)
                 qN, uN = np.array(sol_b.q[-1]), np.array(sol_b.u[-1])
                 # map the state of the rebuilt system back to the original ordering (same plan, same order)
@@ -274,14 +278,19 @@ def execute(plan, out, log):
             if plan["via"] == "build":
                 st = body_states(Bfwd, 0.0, qN, -uN)
                 st["angle0"] = ang
-                Br = build(scene, state=st)
+                try:
+                    Br = build(scene, state=st)
+                except AssertionError as e:
+                    out["violations"].append(violation("state_rejected", "build", f"the velocity-reversed state RATTLE reached after {N} steps (dt={dt:.2e}) on a conservative scleronomic system is rejected by assembly: {e}"))
+                    return
                 out["probes"]["reverse_via_build"] += 1
             else:
                 c = pristine
                 try:
                     c.set_new_initial_state(qN, -uN, t0=0.0)
                 except AssertionError as e:
-                    raise Discard("reversed_state_rejected")
+                    out["violations"].append(violation("state_rejected", "set_new_initial_state", f"the velocity-reversed state RATTLE reached after {N} steps (dt={dt:.2e}) on a conservative scleronomic system is rejected by set_new_initial_state: {e}"))
+                    return
 
                 class _B:
                     pass
